@@ -17,7 +17,9 @@ def obligations(tier):
     for ln in range(0, (5 if tier == "quick" else 7)):
         o.append(Obl("load_text_len%d_all_contents" % ln, "h_utf8.c", {"MODE": "M_LOAD", "LEN": ln}, unwind=ln + 3, timeout=600, funcs=F, leak=True,
                      desc="cbor_load of 0x6%d + %d symbolic bytes: never rejected, count per RFC 3629, bytes preserved" % (ln, ln), bounds="all contents of length %d" % ln))
-    o.append(Obl("dfa_step_all_states_all_bytes", "h_utf8.c", {"MODE": "M_DFA_STEP"}, unwind=3, funcs=F,
+    # advisory: this lemma is about the *current implementation* (Hoehrmann's DFA and its state numbering); a different but correct validator
+    # would make it fail or not compile without violating C16, so its failure is recorded in the evidence and does not raise an alarm
+    o.append(Obl("dfa_step_all_states_all_bytes", "h_utf8.c", {"MODE": "M_DFA_STEP"}, unwind=3, funcs=F, advisory=True,
                  desc="_cbor_unicode_decode from ANY of the 9 states on ANY byte moves to the state the reference automaton prescribes (induction step: strings of any length)",
                  bounds="9 states x 256 bytes x any codepoint register"))
     o.append(Obl("count_base_one_byte", "h_utf8.c", {"MODE": "M_COUNT_STEP"}, unwind=4, funcs=F, desc="counter base case on every 1-byte string", bounds="256 bytes"))
